@@ -107,7 +107,10 @@ def run_case(case, cx):
         det["dangling"] = dang[:5]
         cx.violation("dangling-type-reference", det)
         return
-    dup = doc.duplicate_ids()
+    # the statement is about the type ids the document *references*: each must be defined exactly once.  (abidw repeats
+    # the inline <subrange ... id='X'/> child in every array that shares the subrange; nothing refers to that id.)
+    referenced = set(v for a, v, el in doc.refs)
+    dup = {i: els for i, els in doc.duplicate_ids().items() if i in referenced}
     if dup:
         det["duplicates"] = {k: [e.tag for e in v] for k, v in list(dup.items())[:5]}
         cx.violation("type-id-defined-twice", det)
